@@ -134,7 +134,17 @@ def uncell(j):
 
 
 def table_j(td):
-    return dict(header=td["header"], cols=[[cell_j(v) for v in c] for c in td["cols"]], title=td.get("title", ""))
+    return dict(header=td["header"], cols=[[cell_j(v) for v in c] for c in td["cols"]], title=td.get("title", ""), index=td.get("index"))
+
+
+def norm(td):
+    """the table as `Table.header` shows it: a column named as index_name is displayed first"""
+    k = td.get("index")
+    if k is None or k not in td["header"] or td["header"][0] == k:
+        return td
+    i = td["header"].index(k)
+    order = [i] + [j for j in range(len(td["header"])) if j != i]
+    return dict(td, header=[td["header"][j] for j in order], cols=[td["cols"][j] for j in order])
 
 
 def rows_of(td):
@@ -218,7 +228,7 @@ def col_kind(values):
     return "obj"
 
 
-def gen_table(rng, nrows=None, ncols=None, names=None, file_mode=False, kinds=None):
+def gen_table(rng, nrows=None, ncols=None, names=None, file_mode=False, kinds=None, index=None):
     if nrows is None:
         nrows = rng.choice([0, 1, 1, 2, 3, 3, 4, 5, 6, 8, 12, 20, 40])
     if names is None:
@@ -231,7 +241,25 @@ def gen_table(rng, nrows=None, ncols=None, names=None, file_mode=False, kinds=No
         )
         cols.append(gen_column(rng, k, nrows, file_mode))
     title = rng.choice(["", "", "T1", "my title", "t,1"])
-    return dict(header=list(names), cols=cols, title=title)
+    td = dict(header=list(names), cols=cols, title=title)
+    if index is None:
+        index = rng.random() < 0.3
+    if index and names:
+        add_index(rng, td)
+    return td
+
+
+def add_index(rng, td, pos=None, str_labels=False):
+    """turn one column into an index column (unique values) and name it as index_name"""
+    n = len(td["cols"][0]) if td["cols"] else 0
+    i = rng.randrange(len(td["header"])) if pos is None else pos
+    if str_labels or rng.random() < 0.7:
+        labels = rng.sample(["r%d" % j for j in range(n + 3)] + ["g,1", "x y", "A"], n)
+    else:
+        labels = rng.sample(range(-2, n + 5), n)
+    td["cols"][i] = labels
+    td["index"] = td["header"][i]
+    return td
 
 
 # predicate / function mini languages (mirrored in lean/Driver/C20.lean)
@@ -322,6 +350,72 @@ def fn_j(spec):
     return ["const", cell_j(spec[1])] if spec[0] == "const" else list(spec)
 
 
+IDENT = ["k", "n", "s", "x", "y", "val", "f", "b", "w", "idx", "K", "c_d"]
+
+
+def gen_cols_form(rng, columns, allow_str=True):
+    """how the `columns=` argument is spelled: list / tuple / (a single name) plain str"""
+    if len(columns) == 1 and allow_str and rng.random() < 0.5:
+        return "str"
+    return rng.choice(["list", "list", "tuple"])
+
+
+def spell_cols(case):
+    f = case.get("cols_form", "list")
+    c = case["columns"]
+    if f == "none":
+        return None
+    if f == "str":
+        return c[0]
+    return tuple(c) if f == "tuple" else list(c)
+
+
+def gen_pred_typed(rng, cols, depth=0):
+    """predicates that never compare values of different types (usable as python source on the raw cells)"""
+    i = rng.randrange(len(cols))
+    kd = col_kind(cols[i])
+    r = rng.random()
+    if depth < 2 and r < 0.25:
+        return [rng.choice(["and", "or"]), gen_pred_typed(rng, cols, depth + 1), gen_pred_typed(rng, cols, depth + 1)]
+    if depth < 2 and r < 0.33:
+        return ["not", gen_pred_typed(rng, cols, depth + 1)]
+    opts = [["eq", i, rng.choice(list(cols[i]) + [1, "a"])], ["ismissing", i]]
+    if kd == "num":
+        opts += [["numgt", i, rat(Fraction(rng.choice([-1, 0, 1, 2, 3])) + Fraction(rng.choice([0, 1]), 2))]] * 3
+    if kd == "str":
+        opts += [["strlen_gt", i, rng.choice([0, 1, 2])]] * 2
+    return rng.choice(opts)
+
+
+def pred_src(spec, names):
+    """python source of a typed predicate in terms of the column names (string callbacks)"""
+    k = spec[0]
+    if k == "true":
+        return "True"
+    if k == "numgt":
+        q = unrat(spec[2])
+        return f"({names[spec[1]]} > {q.numerator}/{q.denominator})"
+    if k == "eq":
+        return f"({names[spec[1]]} == {spec[2]!r})"
+    if k == "ismissing":
+        return f"({names[spec[1]]} is None)"
+    if k == "strlen_gt":
+        return f"(len({names[spec[1]]}) > {spec[2]})"
+    if k in ("and", "or"):
+        return f"({pred_src(spec[1], names)} {k} {pred_src(spec[2], names)})"
+    if k == "not":
+        return f"(not {pred_src(spec[1], names)})"
+    raise ValueError(spec)
+
+
+def fn_src(spec, names):
+    if spec[0] == "const":
+        return repr(spec[1])
+    if spec[0] in ("sum", "concat"):
+        return " + ".join(names)
+    raise ValueError(spec)
+
+
 def sortable(td):
     """names of columns usable as sort keys: homogeneous, no missing"""
     return [h for h, c in zip(td["header"], td["cols"]) if col_kind(c) in ("num", "str", "bool")]
@@ -331,7 +425,8 @@ def gen_case(rng, op=None):
     """one operation with generated tables and arguments (json-able dict)"""
     op = op or rng.choice(
         ["sorted", "sorted", "sorted", "inner_join", "inner_join", "natural_join", "cross_join", "filtered", "filtered",
-         "count_unique", "distinct_values", "appended", "transposed", "get_columns", "with_new_column"]
+         "count_unique", "distinct_values", "appended", "transposed", "get_columns", "with_new_column", "with_new_column",
+         "count", "row_indices", "filtered_by_column", "getitem", "getitem"]
     )
     if op == "sorted":
         t = gen_table(rng, nrows=rng.choice([1, 2, 3, 3, 4, 5, 6, 9, 15, 30, 60]))
@@ -397,23 +492,91 @@ def gen_case(rng, op=None):
         if op == "inner_join":
             case.update(ks=ks, ko=ko)
         return case
-    if op == "filtered":
-        t = gen_table(rng)
+    if op in ("filtered", "count", "row_indices"):
+        cb = rng.choice(["callable", "callable", "string"])
+        t = gen_table(rng, names=rng.sample(IDENT, rng.choice([1, 2, 3, 4])) if cb == "string" else None)
+        tn = norm(t)
         k = rng.randint(1, len(t["header"]))
         columns = rng.sample(t["header"], k)
         sub = [t["cols"][t["header"].index(c)] for c in columns]
-        return dict(op=op, t=t, columns=columns, pred=gen_pred(rng, sub))
-    if op in ("count_unique", "distinct_values", "get_columns"):
-        t = gen_table(rng)
-        k = rng.randint(1, len(t["header"]))
-        return dict(op=op, t=t, columns=rng.sample(t["header"], k))
-    if op == "with_new_column":
+        if cb == "string":
+            # a string callback is eval()'d with the row as namespace: it sees all the selected columns by name
+            pred = gen_pred_typed(rng, sub)
+        else:
+            pred = gen_pred(rng, sub)
+        case = dict(op=op, t=t, columns=columns, pred=pred, cb=cb, cols_form=gen_cols_form(rng, columns, allow_str=op != "row_indices"))
+        if rng.random() < 0.15 and op != "row_indices":
+            case["columns"], case["cols_form"] = list(tn["header"]), "none"  # columns=None: all columns, in header order
+            case["pred"] = gen_pred_typed(rng, tn["cols"]) if cb == "string" else gen_pred(rng, tn["cols"])
+        if op == "row_indices":
+            case["negate"] = rng.random() < 0.5
+        return case
+    if op in ("count_unique", "distinct_values"):
         t = gen_table(rng)
         k = rng.randint(1, len(t["header"]))
         columns = rng.sample(t["header"], k)
-        fn = rng.choice([["sum"], ["sum"], ["concat"], ["nmissing"], ["const", rng.choice([1, "c", 2.5])]])
-        new = rng.choice(["new", "new", "N w", t["header"][0]])
-        return dict(op=op, t=t, columns=columns, fn=fn, new=new)
+        return dict(op=op, t=t, columns=columns, cols_form=gen_cols_form(rng, columns))
+    if op == "get_columns":
+        t = gen_table(rng)
+        k = rng.randint(1, len(t["header"]))
+        columns = rng.sample(t["header"], k)
+        return dict(op=op, t=t, columns=columns, cols_form=gen_cols_form(rng, columns, allow_str=False), with_index=rng.random() < 0.6)
+    if op == "filtered_by_column":
+        t = gen_table(rng)
+        return dict(op=op, t=t, cpred=[rng.choice(["allnum", "nomissing", "anystr", "true"])])
+    if op == "getitem":
+        t = gen_table(rng, nrows=rng.choice([1, 2, 3, 4, 6, 9]), index=False)
+        if rng.random() < 0.35:
+            add_index(rng, t, str_labels=True)  # (int labels would be ambiguous with row positions)
+        n, m = len(t["cols"][0]), len(t["header"])
+        H = norm(t)["header"]
+        r = rng.random()
+        if r < 0.15:
+            rows = ["all"]
+        elif r < 0.35:
+            rows = ["int", rng.randint(-n - 1, n)]
+        elif r < 0.65:
+            rows = ["slice", rng.choice([None, 0, 1, -1, -2, 2, n, -n - 1]), rng.choice([None, 0, 1, -1, 2, n + 2, -n]), rng.choice([None, None, 1, 2, -1, -2])]
+        elif r < 0.85 or t.get("index") is not None:
+            rows = ["ints", [rng.randint(-n, n - 1) for _ in range(rng.choice([1, 2, 3]))]]
+        else:
+            rows = ["mask", [rng.random() < 0.5 for _ in range(n)]]  # numpy bool array (tables without index_name)
+        r = rng.random()
+        if r < 0.15:
+            cols = ["all"]
+        elif r < 0.4:
+            cols = ["names", rng.sample(H, rng.randint(1, m))]
+        elif r < 0.5:
+            cols = ["str", rng.choice(H)]
+        elif r < 0.62:
+            cols = ["int", rng.randint(-m - 1, m)]
+        elif r < 0.74:
+            cols = ["ints", [j - rng.choice([0, m]) for j in rng.sample(range(m), rng.choice([1, min(2, m)]))]]
+        elif r < 0.88:
+            cols = ["slice", rng.choice([None, 0, 1, -1, -2]), rng.choice([None, 1, -1, m, m + 2]), rng.choice([None, None, 1, 2, -1])]
+        else:
+            cols = ["bools", [rng.random() < 0.6 for _ in range(m)]]
+            cols[1][rng.randrange(m)] = True
+        if t.get("index") is not None and rng.random() < 0.2:
+            rows = ["label", rng.choice(t["cols"][t["header"].index(t["index"])])]
+        return dict(op=op, t=t, rows=rows, cols=cols)
+    if op == "with_new_column":
+        cb = rng.choice(["callable", "callable", "string"])
+        t = gen_table(rng, names=rng.sample(IDENT, rng.choice([1, 2, 3, 4])) if cb == "string" else None)
+        k = rng.randint(1, len(t["header"]))
+        columns = rng.sample(t["header"], k)
+        kinds = [col_kind(t["cols"][t["header"].index(c)]) for c in columns]
+        if cb == "string":
+            opts = [["const", rng.choice([1, "c", 2.5])]]
+            if all(kd == "num" for kd in kinds):
+                opts += [["sum"], ["sum"]]
+            if all(kd == "str" for kd in kinds):
+                opts += [["concat"], ["concat"]]
+            fn = rng.choice(opts)
+        else:
+            fn = rng.choice([["sum"], ["sum"], ["concat"], ["nmissing"], ["const", rng.choice([1, "c", 2.5])]])
+        new = rng.choice(["new", "new", "N w", t["header"][0], t["header"][-1]])
+        return dict(op=op, t=t, columns=columns, fn=fn, new=new, cb=cb, cols_form=gen_cols_form(rng, columns))
     if op == "appended":
         t = gen_table(rng, nrows=rng.choice([0, 1, 2, 3, 5]))
         kinds = None
@@ -426,7 +589,11 @@ def gen_case(rng, op=None):
             m = rng.choice([0, 1, 2, 4])
             for nme in names:
                 src = t["cols"][t["header"].index(nme)]
-                if same and src:
+                if nme == t.get("index"):
+                    # labels: fresh ones, or (sometimes) ones the first table already uses
+                    fresh = ["n%d_%d" % (i, j) for j in range(m)]
+                    cols.append([rng.choice(src) if src and rng.random() < 0.15 else f for f in fresh])
+                elif same and src:
                     cols.append([rng.choice(src) for _ in range(m)])
                 else:
                     cols.append(gen_column(rng, rng.choice(["int", "float", "str", "bool", "mixed"]), m))
@@ -436,7 +603,7 @@ def gen_case(rng, op=None):
         n = rng.choice([0, 1, 2, 3, 4])
         ncols = rng.choice([1, 2, 3, 4])
         names = rng.sample(NAMES, ncols)
-        t = gen_table(rng, nrows=n, names=names)
+        t = gen_table(rng, nrows=n, names=names, index=False)
         si = rng.randrange(ncols)
         kind = rng.choice(["str", "int", "dup"])
         if kind == "str":
@@ -445,7 +612,12 @@ def gen_case(rng, op=None):
             t["cols"][si] = rng.sample(range(-2, 9), n)
         else:
             t["cols"][si] = [rng.choice(["u", "v", 1]) for _ in range(n)]
-        return dict(op=op, t=t, new=rng.choice(["hdr", "name"]), select=None if si == 0 and rng.random() < 0.5 else names[si])
+        select = None if si == 0 and rng.random() < 0.5 else names[si]
+        if rng.random() < 0.3:  # with an index column: it is displayed first and is the default header source
+            add_index(rng, t)
+            if rng.random() < 0.6:
+                select = None
+        return dict(op=op, t=t, new=rng.choice(["hdr", "name"]), select=select)
     raise ValueError(op)
 
 
@@ -455,7 +627,10 @@ def gen_case(rng, op=None):
 def real_table(td):
     from cogent3 import make_table
 
-    return make_table(header=list(td["header"]), data={h: list(c) for h, c in zip(td["header"], td["cols"])}, title=td.get("title", ""))
+    return make_table(
+        header=list(td["header"]), data={h: list(c) for h, c in zip(td["header"], td["cols"])}, title=td.get("title", ""),
+        index_name=td.get("index"),
+    )
 
 
 def table_rows(t):
@@ -474,8 +649,60 @@ def _cb(f, ncols):
     return lambda x: f(list(x))
 
 
+def real_callback(case, kind):
+    """the callback argument: a python callable, or python source evaluated with the row as namespace"""
+    if case.get("cb") == "string":
+        return pred_src(case["pred"], case["columns"]) if kind == "pred" else fn_src(case["fn"], case["columns"])
+    f = mk_pred(case["pred"]) if kind == "pred" else mk_fn(case["fn"])
+    return _cb(f, len(case["columns"]))
+
+
+def mk_cpred(spec):
+    k = spec[0]
+    vals = lambda c: [_py(v) for v in c.tolist()]
+    if k == "allnum":
+        return lambda c: all(isinstance(v, (int, float)) and not isinstance(v, bool) for v in vals(c))
+    if k == "nomissing":
+        return lambda c: all(v is not None for v in vals(c))
+    if k == "anystr":
+        return lambda c: any(isinstance(v, str) for v in vals(c))
+    return lambda c: True
+
+
+def py_rowsel(case, numpy):
+    r = case["rows"]
+    if r[0] == "all":
+        return slice(None)
+    if r[0] == "int":
+        return r[1]
+    if r[0] == "slice":
+        return slice(r[1], r[2], r[3])
+    if r[0] == "ints":
+        return list(r[1])
+    if r[0] == "mask":
+        return numpy.array(r[1], dtype=bool)
+    if r[0] == "label":
+        return r[1]
+    raise ValueError(r)
+
+
+def py_colsel(case):
+    c = case["cols"]
+    if c[0] == "all":
+        return None
+    if c[0] in ("names", "ints", "bools"):
+        return list(c[1])
+    if c[0] in ("str", "int"):
+        return c[1]
+    if c[0] == "slice":
+        return slice(c[1], c[2], c[3])
+    raise ValueError(c)
+
+
 def run_real(case):
-    """-> dict(header=, rows=) | dict(counts=) | dict(values=) | dict(err=)"""
+    """-> dict(header=, rows=) | dict(counts=) | dict(values=) | dict(mask=) | dict(count=) | dict(err=)"""
+    import numpy
+
     op = case["op"]
     try:
         t = real_table(case["t"])
@@ -493,26 +720,41 @@ def run_real(case):
         elif op == "cross_join":
             r = t.joined(real_table(case["u"]), inner_join=False) if case.get("via_joined") else t.cross_join(real_table(case["u"]))
         elif op == "filtered":
-            r = t.filtered(_cb(mk_pred(case["pred"]), len(case["columns"])), columns=case["columns"])
+            r = t.filtered(real_callback(case, "pred"), columns=spell_cols(case))
+        elif op == "count":
+            return dict(count=int(t.count(real_callback(case, "pred"), columns=spell_cols(case))))
+        elif op == "row_indices":
+            m = t.get_row_indices(real_callback(case, "pred"), spell_cols(case), negate=case["negate"])
+            return dict(mask=[bool(x) for x in m.tolist()])
+        elif op == "filtered_by_column":
+            r = t.filtered_by_column(mk_cpred(case["cpred"]))
         elif op == "count_unique":
-            c = t.count_unique(case["columns"])
+            c = t.count_unique(spell_cols(case))
             single = len(case["columns"]) == 1
             return dict(counts=Counter({(canon(k),) if single else canon(k): int(n) for k, n in c.items()}))
         elif op == "distinct_values":
-            s = t.distinct_values(case["columns"])
+            s = t.distinct_values(spell_cols(case))
             single = len(case["columns"]) == 1
             return dict(values={(canon(k),) if single else canon(k) for k in s}, size=len(s))
         elif op == "get_columns":
-            r = t.get_columns(case["columns"])
+            r = t.get_columns(spell_cols(case), with_index=case.get("with_index", True))
+        elif op == "getitem":
+            rs, cs = py_rowsel(case, numpy), py_colsel(case)
+            r = t[rs] if cs is None and case.get("rows_only", True) else t[rs, slice(None) if cs is None else cs]
+            if not hasattr(r, "header"):  # a single cell (or a 1-element array)
+                v = r.tolist() if hasattr(r, "tolist") else r
+                return dict(scalar=v[0] if isinstance(v, list) and len(v) == 1 else v)
         elif op == "with_new_column":
-            r = t.with_new_column(case["new"], _cb(mk_fn(case["fn"]), len(case["columns"])), columns=case["columns"])
+            r = t.with_new_column(case["new"], real_callback(case, "fn"), columns=spell_cols(case))
         elif op == "appended":
             r = t.appended(case["new"], *[real_table(o) for o in case["others"]])
         elif op == "transposed":
             r = t.transposed(case["new"], select_as_header=case["select"])
         else:
             raise ValueError(op)
-        return dict(header=list(r.header), rows=table_rows(r), shape=list(r.shape))
+        # reading index_name first: a handed-on index_name is only validated / moved to the front on first use
+        ix = r.index_name
+        return dict(header=list(r.header), rows=table_rows(r), shape=list(r.shape), index=ix)
     except (SystemExit, KeyboardInterrupt):
         raise
     except Exception as e:  # noqa: BLE001
@@ -548,14 +790,41 @@ def row_cmp(a, b, idx, rev):
     return 0
 
 
+def py_index_list(n, r):
+    """row / column positions selected by an index expression (python list semantics)"""
+    base = list(range(n))
+    if r[0] == "all":
+        return base
+    if r[0] == "int":
+        return [base[r[1]]]
+    if r[0] == "slice":
+        return base[slice(r[1], r[2], r[3])]
+    if r[0] == "ints":
+        return [base[i] for i in r[1]]
+    if r[0] in ("mask", "bools"):
+        return [i for i, b in enumerate(r[1]) if b]
+    raise ValueError(r)
+
+
+def index_first(k, hdr, rows):
+    """`Columns.order`: a result that still contains the index column shows it first; its values must be unique"""
+    if k is None or k not in hdr:
+        return dict(header=hdr, rows=rows)
+    i = hdr.index(k)
+    if len({canon(r[i]) for r in rows}) != len(rows):
+        return dict(err="ValueError")  # not usable as index_name
+    order = [i] + [j for j in range(len(hdr)) if j != i]
+    return dict(header=[hdr[j] for j in order], rows=[[r[j] for j in order] for r in rows])
+
+
 def oracle(case):
     """expected result on the list of row tuples; for `sorted` returns the checker inputs"""
     op = case["op"]
-    t = case["t"]
+    t = norm(case["t"])
     R = rows_of(t)
     H = t["header"]
     if op in ("inner_join", "natural_join", "cross_join"):
-        u = case["u"]
+        u = norm(case["u"])
         S, HU = rows_of(u), u["header"]
         if op == "cross_join":
             return dict(header=H + ["right_" + c for c in HU], rows=[r + s for r in R for s in S])
@@ -568,10 +837,27 @@ def oracle(case):
         keep = [j for j, c in enumerate(HU) if c not in ko]
         rows = [r + [s[j] for j in keep] for r in R for s in S if [canon(r[i]) for i in iS] == [canon(s[i]) for i in iO]]
         return dict(header=H + ["right_" + HU[j] for j in keep], rows=rows)
-    if op == "filtered":
+    if op in ("filtered", "count", "row_indices"):
         idx = [H.index(c) for c in case["columns"]]
         p = mk_pred(case["pred"])
-        return dict(header=H, rows=[r for r in R if p([r[i] for i in idx])])
+        if op == "filtered":
+            return dict(header=H, rows=[r for r in R if p([r[i] for i in idx])])
+        if op == "count":
+            return dict(count=sum(1 for r in R if p([r[i] for i in idx])))
+        return dict(mask=[bool(p([r[i] for i in idx])) != case["negate"] for r in R])
+    if op == "filtered_by_column":
+        keep = []
+        for j, c in enumerate(t["cols"]):
+            vals = list(c)
+            ok = dict(
+                allnum=all(isinstance(v, (int, float)) and not isinstance(v, bool) for v in vals),
+                nomissing=all(v is not None for v in vals),
+                anystr=any(isinstance(v, str) for v in vals),
+                true=True,
+            )[case["cpred"][0]]
+            if ok:
+                keep.append(j)
+        return dict(header=[H[j] for j in keep], rows=[[r[j] for j in keep] for r in R] if keep else [])
     if op == "count_unique":
         idx = [H.index(c) for c in case["columns"]]
         return dict(counts=Counter(tuple(canon(r[i]) for i in idx) for r in R))
@@ -579,21 +865,59 @@ def oracle(case):
         idx = [H.index(c) for c in case["columns"]]
         return dict(values={tuple(canon(r[i]) for i in idx) for r in R})
     if op == "get_columns":
-        idx = [H.index(c) for c in case["columns"]]
-        return dict(header=list(case["columns"]), rows=[[r[i] for i in idx] for r in R])
+        cols = list(case["columns"])
+        k = t.get("index")
+        if k is not None and case.get("with_index", True):
+            cols = [k] + [c for c in cols if c != k]
+        idx = [H.index(c) for c in cols]
+        return index_first(k, cols, [[r[i] for i in idx] for r in R])
+    if op == "getitem":
+        try:
+            c = case["cols"]
+            if c[0] == "names":
+                cidx = [H.index(x) for x in c[1]]
+            elif c[0] == "str":
+                cidx = [H.index(c[1])]
+            else:
+                cidx = py_index_list(len(H), c)
+            if not cidx:
+                return dict(header=[], rows=[])
+            if case["rows"][0] == "label":
+                ridx = [[canon(x) for x in t["cols"][0]].index(canon(case["rows"][1]))]
+            else:
+                ridx = py_index_list(len(R), case["rows"])
+        except (IndexError, ValueError):
+            return dict(err="IndexError|KeyError")
+        rows = [[R[i][j] for j in cidx] for i in ridx]
+        single_row = case["rows"][0] in ("int", "label") or (case["rows"][0] == "ints" and len(ridx) == 1)
+        if single_row and len(cidx) == 1 and len(ridx) == 1:
+            return dict(scalar=rows[0][0])
+        return index_first(t.get("index"), [H[j] for j in cidx], rows)
     if op == "with_new_column":
         idx = [H.index(c) for c in case["columns"]]
         f = mk_fn(case["fn"])
         keep = [j for j, c in enumerate(H) if c != case["new"]]
-        return dict(header=[H[j] for j in keep] + [case["new"]], rows=[[r[j] for j in keep] + [f([r[i] for i in idx])] for r in R])
+        hdr = [H[j] for j in keep] + [case["new"]]
+        rows = [[r[j] for j in keep] + [f([r[i] for i in idx])] for r in R]
+        k = t.get("index")
+        if k is not None and k == case["new"]:
+            return index_first(k, hdr, rows)  # the new column takes over the index_name
+        return dict(header=hdr, rows=rows)
     if op == "appended":
         rows = []
-        for tab in [t] + case["others"]:
+        for tab in [t] + [norm(o) for o in case["others"]]:
             perm = [tab["header"].index(c) for c in H]
             for r in rows_of(tab):
                 rr = [r[j] for j in perm]
                 rows.append(([tab.get("title", "")] if case["new"] is not None else []) + rr)
-        return dict(header=([case["new"]] if case["new"] is not None else []) + H, rows=rows)
+        hdr = ([case["new"]] if case["new"] is not None else []) + H
+        k = t.get("index")
+        if k is not None and case["new"] is not None:
+            ki = hdr.index(k)
+            if len({canon(r[ki]) for r in rows}) == len(rows):  # still usable as index_name: that column stays first
+                hdr = [H[0], case["new"]] + H[1:]
+                rows = [[r[1], r[0]] + r[2:] for r in rows]
+        return dict(header=hdr, rows=rows)
     if op == "transposed":
         sel = case["select"] or H[0]
         si = H.index(sel)
@@ -619,11 +943,18 @@ def classify_sort_violation(a, b, idx, rev, header):
 
 
 def check_op(case, real=None):
-    """REAL vs ORACLE. returns None or (what, expected, got, sig)"""
+    """REAL vs ORACLE. returns None or (what, expected, got, sig); the sig says whether an index_name is involved"""
+    f = _check_op(case, real)
+    if f and any(td.get("index") is not None for td in [case["t"], case.get("u") or {}] + case.get("others", [])):
+        f = (f[0], f[1], f[2], f[3] + ":indexed")
+    return f
+
+
+def _check_op(case, real=None):
     op = case["op"]
     real = real if real is not None else run_real(case)
     if op == "sorted":
-        t = case["t"]
+        t = norm(case["t"])
         H = t["header"]
         cols, reverse = sort_columns_spec(H, case["columns"], case["reverse"])
         kinds = {h: col_kind(c) for h, c in zip(H, t["cols"])}
@@ -652,11 +983,23 @@ def check_op(case, real=None):
         return None
     exp = oracle(case)
     if "err" in exp:
-        if real.get("err") == exp["err"]:
+        if real.get("err") in exp["err"].split("|"):
             return None
         return (f"{op}: expected {exp['err']}", exp, show(real), f"{op}:expected-{exp['err']}")
     if "err" in real:
-        return (f"{op} raised {real['err']}: {real.get('msg')}", show(exp), real, f"{op}:raises:{real['err']}")
+        extra = ":index_name" if "index_name" in (real.get("msg") or "") else ""
+        return (f"{op} raised {real['err']}: {real.get('msg')}", show(exp), real, f"{op}:raises:{real['err']}{extra}")
+    if "scalar" in real and "rows" in exp:
+        if len(exp["rows"]) == 1 and len(exp["rows"][0]) == 1 and canon(exp["rows"][0][0]) == canon(real["scalar"]):
+            return None
+        return (f"{op}: rows differ from the list-of-row-tuples result", show(exp["rows"]), show(real), f"{op}:rows")
+    for key in ("mask", "count", "scalar"):
+        if key in exp:
+            got = real.get(key, real)
+            same = canon(got) == canon(exp[key]) if key == "scalar" and not isinstance(got, dict) else got == exp[key]
+            if not same:
+                return (f"{op}: {key} differs from the row-list result", show(exp[key]), show(got), f"{op}:{key}")
+            return None
     if "counts" in exp:
         if exp["counts"] != real["counts"]:
             return (f"{op} differs from Counter over row tuples", show(sorted(exp["counts"].items(), key=repr)), show(sorted(real["counts"].items(), key=repr)), f"{op}:counts")
@@ -678,6 +1021,130 @@ def check_op(case, real=None):
             sig += ":count"
         return (f"{op}: rows differ from the list-of-row-tuples result", show(exp["rows"]), show(real["rows"]), sig)
     return None
+
+
+# --------------------------------------------------------------------------
+# exercised only (REAL vs ORACLE, no Lean model): summed / normalized / to_categorical / head+tail policy
+# --------------------------------------------------------------------------
+def numeric_sum(values):
+    xs = [_py(v) for v in values]
+    xs = [v for v in xs if isinstance(v, (int, float, bool))]
+    if not xs:
+        return float("nan")
+    tot = sum((Fraction(int(v) if isinstance(v, bool) else v) for v in xs), Fraction(0))
+    return float(tot) if any(isinstance(v, float) for v in xs) else int(tot)
+
+
+def gen_extra(rng):
+    kind = rng.choice(["summed", "summed", "normalized", "to_categorical", "repr_policy"])
+    if kind == "summed":
+        strict = rng.random() < 0.5
+        n = rng.choice([1, 2, 3, 5])
+        m = rng.choice([1, 2, 3])
+        names = rng.sample(NAMES, m)
+        kinds = [rng.choice(["int", "float"] if strict else ["int", "float", "str", "bool", "mixed"]) for _ in names]
+        t = gen_table(rng, nrows=n, names=names, kinds=kinds, index=False)
+        if not strict and rng.random() < 0.3:
+            t["header"].append("lab")
+            t["cols"].append(["r%d" % i for i in range(n)])
+            t["index"] = "lab"
+        col_sum = rng.random() < 0.5
+        H = norm(t)["header"]
+        if col_sum:
+            indices = rng.choice([None, rng.choice(H), rng.sample(H, rng.randint(1, len(H)))])
+        else:
+            indices = rng.choice([None, None, rng.randrange(n), sorted(rng.sample(range(n), rng.randint(1, n)))])
+            if t.get("index") and isinstance(indices, int) or len(t["header"]) < 2:
+                indices = None  # (a single cell is returned as a scalar, which sum_rows does not expect)
+        return dict(kind=kind, t=t, indices=indices, col_sum=col_sum, strict=strict)
+    if kind == "normalized":
+        n, m = rng.choice([1, 2, 3, 5]), rng.choice([1, 2, 3])
+        t = dict(header=rng.sample(NAMES, m), cols=[[rng.choice([1, 2, 3, 0.5, 4.0, 7]) for _ in range(n)] for _ in range(m)], title="")
+        return dict(kind=kind, t=t, by_row=rng.random() < 0.5)
+    if kind == "to_categorical":
+        n, m = rng.choice([2, 3, 4]), rng.choice([2, 3])
+        names = rng.sample(IDENT, m + 1)
+        t = dict(header=names, cols=[["r%d" % i for i in range(n)]] + [[rng.randint(1, 30) for _ in range(n)] for _ in range(m)], title="")
+        pos = rng.randrange(m + 1)  # the label column need not be the first one
+        t["header"] = names[1 : pos + 1] + [names[0]] + names[pos + 1 :]
+        t["cols"] = t["cols"][1 : pos + 1] + [t["cols"][0]] + t["cols"][pos + 1 :]
+        t["index"] = names[0]
+        cols = rng.choice([None, None, rng.sample(names[1:], rng.randint(1, m)), rng.choice(names[1:])])
+        return dict(kind=kind, t=t, columns=cols)
+    n = rng.choice([1, 3, 6, 12, 60])
+    t = gen_table(rng, nrows=n, ncols=rng.choice([2, 3, 4]), index=rng.random() < 0.3)
+    h = rng.choice([None, 1, 2, 5])
+    tl = rng.choice([None, 1, 2, 4])
+    if (h or 0) + (tl or 0) > n:
+        h, tl = (min(h or 1, n), None)
+    return dict(kind="repr_policy", t=t, head=h, tail=tl)
+
+
+def check_extra(c):
+    import contextlib
+
+    kind = c["kind"]
+    t = norm(c["t"])
+    H, R = t["header"], rows_of(t)
+    try:
+        rt = real_table(c["t"])
+        if kind == "summed":
+            got = rt.summed(indices=c["indices"], col_sum=c["col_sum"], strict=c["strict"])
+            if c["col_sum"]:
+                sel = H if c["indices"] is None else ([c["indices"]] if isinstance(c["indices"], str) else c["indices"])
+                exp = [numeric_sum(t["cols"][H.index(x)]) for x in sel]
+            else:
+                ii = list(range(len(R))) if c["indices"] is None else ([c["indices"]] if isinstance(c["indices"], int) else c["indices"])
+                exp = [numeric_sum(R[i]) for i in ii]
+            exp = exp[0] if len(exp) == 1 else exp
+            got = got.tolist() if hasattr(got, "tolist") else got
+            if canon(got) != canon(exp):
+                return (f"summed(indices={c['indices']}, col_sum={c['col_sum']}, strict={c['strict']}) differs", show(exp), show(got), f"summed:{'col' if c['col_sum'] else 'row'}:{'strict' if c['strict'] else 'nonstrict'}")
+            return None
+        if kind == "normalized":
+            r = rt.normalized(by_row=c["by_row"])
+            got = table_rows(r)
+            tot_r = [sum(Fraction(v) for v in row) for row in R]
+            tot_c = [sum(Fraction(v) for v in col) for col in t["cols"]]
+            for i, row in enumerate(R):
+                for j, v in enumerate(row):
+                    e = Fraction(v) / (tot_r[i] if c["by_row"] else tot_c[j])
+                    if abs(Fraction(got[i][j]) - e) > Fraction(1, 10**12) * max(1, abs(e)):
+                        return ("normalized: cell differs from value / total", rat(e), got[i][j], f"normalized:{'row' if c['by_row'] else 'col'}")
+            return None if list(r.header) == H else ("normalized: header differs", H, list(r.header), "normalized:header")
+        if kind == "to_categorical":
+            cc = rt.to_categorical(columns=c["columns"])
+            obs = cc.observed
+            cols = [x for x in H if x != t["index"]] if c["columns"] is None else ([c["columns"]] if isinstance(c["columns"], str) else list(c["columns"]))
+            exp = [[r[H.index(x)] for x in cols] for r in R]
+            got = obs.array.tolist()
+            names = [list(x) for x in obs.template.names]
+            if got != exp or names != [[r[0] for r in R], cols]:
+                return ("to_categorical: counts / labels differ from the rows", dict(rows=exp, names=[[r[0] for r in R], cols]), dict(rows=got, names=names), "to_categorical")
+            return None
+        # repr policy = what head()/tail() show
+        rt.set_repr_policy(head=c["head"], tail=c["tail"])
+        tab, info, _ = rt._get_repr_()
+        n = len(R)
+        if not any([c["head"], c["tail"]]):
+            exp = R if n < 50 else R[:5] + R[-5:]
+        elif c["head"] and c["tail"]:
+            exp = R[: c["head"]] + R[n - c["tail"] :]
+        elif c["head"]:
+            exp = R[: c["head"]]
+        else:
+            exp = R[n - c["tail"] :]
+        got = table_rows(tab) if tab is not None else []
+        if canon_rows(got) != canon_rows(exp):
+            return (f"repr policy head={c['head']} tail={c['tail']} selects other rows", show(exp), show(got), "repr_policy:rows")
+        with contextlib.redirect_stdout(io.StringIO()):
+            rt.head(2)
+            rt.tail(2)
+        return None
+    except (SystemExit, KeyboardInterrupt):
+        raise
+    except Exception as e:  # noqa: BLE001
+        return (f"{kind} raised {type(e).__name__}: {str(e)[:150]}", "a result", repr(e)[:200], f"{kind}:raises:{type(e).__name__}")
 
 
 # --------------------------------------------------------------------------
@@ -723,43 +1190,114 @@ def gen_file_table(rng):
     ncols = rng.choice([1, 1, 2, 3, 4])
     hpool = ["a", "b", "c d", "x,y", 'q"z', "t\tu", "#n", "1", "id", "name", "v", "'k'", "A;B", "col 2"]
     names = rng.sample(hpool, ncols)
-    td = gen_table(rng, nrows=nrows, names=names, file_mode=True)
+    td = gen_table(rng, nrows=nrows, names=names, file_mode=True, index=False)
     td["title"] = rng.choice(["", "", "", "T", "a title, with comma", "tab\ttitle", 'say "hi"'])
     td["legend"] = rng.choice(["", "", "", "L", "legend text, more", 'the "legend"\there'])
     return td
 
 
-def check_file(ctx, td, fmt, counter=[0]):
-    """write td as fmt under ctx.scratch, load it back. returns None or (what, expected, got, sig)"""
-    from cogent3 import load_table, make_table
+def is_plain(td):
+    """tables a naive split-on-separator reader/writer can carry: non-empty cells without delimiters, quotes or
+    blanks at the edges"""
+    def ok(x):
+        x = expected_text(x)
+        return bool(x) and x == x.strip() and not any(c in x for c in ',\t;|"\'')
 
+    return all(ok(h) for h in td["header"]) and all(ok(v) for c in td["cols"] for v in c) and not td.get("title") and not td.get("legend")
+
+
+def gen_variant(rng, td):
+    """how the table is written and loaded"""
+    r = rng.random()
+    nrows = len(td["cols"][0]) if td["cols"] else 0
+    if r < 0.3:
+        sep = rng.choice([",", "\t", ";", "|"])
+        return dict(fmt="txt", sep=sep)
+    if r < 0.4:
+        fmt = rng.choice(["tsv", "csv", "tsv.gz"])
+        return dict(fmt=fmt, sep="\t" if fmt.startswith("tsv") else ",")
+    if r < 0.55 and nrows >= 1 and not td.get("legend"):
+        return dict(fmt=rng.choice(["tsv", "csv", "csv.gz"]), limit=rng.randint(1, nrows + 1))
+    if r < 0.7:
+        return dict(fmt=rng.choice(["tsv", "csv"]), inconsistent=rng.choice(["skip", "raise"]))
+    if r < 0.85 and is_plain(td) and nrows:
+        return dict(fmt=rng.choice(["tsv", "csv"]), reader=True)
+    if is_plain(td) and nrows:
+        return dict(fmt=rng.choice(["tsv", "csv"]), writer=True)
+    return dict(fmt=rng.choice(FORMATS))
+
+
+def check_file(ctx, td, fmt, variant=None, counter=[0]):
+    """write td under ctx.scratch, load it back. returns None or (what, expected, got, sig)"""
+    from cogent3 import load_table, make_table
+    from cogent3.format.table import separator_formatter
+    from cogent3.parse.table import FilteringParser
+
+    v = variant or {}
     counter[0] += 1
     path = ctx.scratch / f"t{counter[0]}.{fmt}"
+    td = dict(td)
     H = td["header"]
-    delimited = fmt.split(".")[0] in ("tsv", "csv")
     base = fmt.split(".")[0]
+    delimited = base in ("tsv", "csv", "txt")
+    sep = v.get("sep")
+    dsep = sep or {"tsv": "\t", "csv": ","}.get(base)
+    index = td.get("index")
+    vtag = "+".join(k for k in ("sep", "limit", "inconsistent", "reader", "writer") if k in v) or "plain"
     try:
-        t = make_table(header=list(H), data={h: list(c) for h, c in zip(H, td["cols"])}, title=td.get("title", ""), legend=td.get("legend", ""))
-        t.write(str(path))
+        t = make_table(header=list(H), data={h: list(c) for h, c in zip(H, td["cols"])}, title=td.get("title", ""), legend=td.get("legend", ""), index_name=index)
+        if v.get("writer"):
+            t.write(str(path), writer=separator_formatter(sep=dsep))
+        elif sep is not None:
+            t.write(str(path), sep=sep)
+        else:
+            t.write(str(path))
+        if "inconsistent" in v:  # a line with a different number of fields in the middle of the data
+            with open(path) as f:
+                lines = f.read().split("\n")
+            pos = (2 if td.get("title") else 1) + (1 if td["cols"] and td["cols"][0] else 0)
+            lines.insert(pos, dsep.join(["zz"] * (len(H) + 1)))
+            with open(path, "w") as f:
+                f.write("\n".join(lines))
     except (SystemExit, KeyboardInterrupt):
         raise
     except Exception as e:  # noqa: BLE001
-        return (f"write({fmt}) raised {type(e).__name__}: {e}", "file written", repr(e), f"write:{base}:raises:{type(e).__name__}")
+        return (f"write({fmt}, {vtag}) raised {type(e).__name__}: {e}", "file written", repr(e), f"write:{base}:{vtag}:raises:{type(e).__name__}")
+    if index is not None:
+        td = norm(td)
+        H = td["header"]
     nrows = len(td["cols"][0]) if td["cols"] else 0
     try:
         kw = {}
         if delimited:
             kw = dict(with_title=bool(td.get("title")), with_legend=bool(td.get("legend")))
+            if index is not None:
+                kw["index_name"] = index
+        if sep is not None:
+            kw["sep"] = sep
+        if "limit" in v:
+            kw["limit"] = v["limit"]
+            td["cols"] = [c[: v["limit"]] for c in td["cols"]]
+            nrows = len(td["cols"][0])
+        if v.get("inconsistent") == "skip":
+            kw["skip_inconsistent"] = True
+        if v.get("reader"):
+            kw = dict(reader=FilteringParser(sep=dsep, with_header=True), **({"index_name": index} if index is not None else {}))
         r = load_table(str(path), **kw)
+        if v.get("inconsistent") == "raise":
+            return (f"load_table({fmt}) accepted a row with a different number of fields", "ValueError", list(r.shape), f"load:delimited:{vtag}:accepted")
         got_header = [str(h) for h in r.header]
-        got_cols = [[_py(v) for v in r.columns[h].tolist()] for h in r.header]
+        got_cols = [[_py(x) for x in r.columns[h].tolist()] for h in r.header]
         got_title, got_legend = r.title, r.legend
         got_shape = tuple(r.shape)
+        got_index = r.index_name
     except (SystemExit, KeyboardInterrupt):
         raise
     except BaseException as e:  # noqa: BLE001
+        if v.get("inconsistent") == "raise" and isinstance(e, ValueError) and "inconsistent" in str(e):
+            return None
         return (
-            f"load_table({fmt}) raised {type(e).__name__}: {str(e)[:120]} ({nrows} rows)",
+            f"load_table({fmt}, {vtag}) raised {type(e).__name__}: {str(e)[:120]} ({nrows} rows)",
             "table loaded",
             repr(e)[:200],
             f"load:{'delimited' if delimited else base}:raises:{type(e).__name__}:{'zero-rows' if nrows == 0 else 'rows'}",
@@ -769,6 +1307,8 @@ def check_file(ctx, td, fmt, counter=[0]):
             path.unlink()
         except OSError:
             pass
+    if got_index != index:
+        return (f"{fmt}: index_name differs after round trip", index, got_index, f"load:{'delimited' if delimited else base}:index")
     kind = "delimited" if delimited else base
     if got_header != H:
         return (f"{fmt}: header differs after round trip", H, got_header, f"load:{kind}:header")
@@ -810,6 +1350,44 @@ def check_file(ctx, td, fmt, counter=[0]):
                     show(got),
                     f"load:{kind}:text-changed:{cls}",
                 )
+    return None
+
+
+def check_format_text(ctx, td, how):
+    """to_csv() / to_tsv() / to_string(format=..) text of str/int/bool cells, parsed by the csv reader (CPython's and
+    the Lean model's), must give back header and cell text"""
+    from cogent3 import make_table
+
+    H = td["header"]
+    sep = "," if how in ("to_csv", "to_string:csv") else "\t" if how in ("to_tsv", "to_string:tsv") else ";"
+    cols = [c for c in td["cols"]]
+    keep = [j for j, c in enumerate(cols) if all(isinstance(v, (str, int)) for v in c)]  # (floats are formatted to `digits`)
+    if not keep:
+        return None
+    H = [H[j] for j in keep]
+    cols = [cols[j] for j in keep]
+    nrows = len(cols[0])
+    try:
+        t = make_table(header=list(H), data={h: list(c) for h, c in zip(H, cols)})
+        if how == "to_csv":
+            text = t.to_csv()
+        elif how == "to_tsv":
+            text = t.to_tsv()
+        elif how == "to_string:sep":
+            text = t.to_string(sep=sep)
+        else:
+            text = t.to_string(format=how.split(":")[1])
+    except Exception as e:  # noqa: BLE001
+        return (f"{how} raised {type(e).__name__}: {e}", "text", repr(e), f"format:{how.split(':')[0]}:raises:{type(e).__name__}")
+    exp = [list(H)] + [[expected_text(c[i]) for c in cols] for i in range(nrows)]
+    got = py_csv_read(text + "\n", sep)
+    model = ctx.driver.batch([("csv_read", dict(delim=sep, text=text + "\n"))])[0] if getattr(ctx, "driver", None) else got
+    if model != got:
+        return ("csv reader model differs from csv.reader on to_csv/to_tsv text", got, model, "format:model-vs-csv")
+    if got != exp:
+        cells = [x for r in exp for x in r]
+        cls = "quote" if any('"' in x for x in cells) else "blank-edge" if any(x != x.strip() for x in cells) else "empty-row" if any(all(x == "" for x in r) for r in exp) else "other"
+        return (f"{how}: text does not parse back to header + cell text", exp, got, f"format:{how.split(':')[0]}:{cls}")
     return None
 
 
@@ -936,13 +1514,16 @@ def model_req(case):
     d = dict(op=op, t=table_j(case["t"]))
     if "u" in case:
         d["u"] = table_j(case["u"])
-    for k in ("ks", "ko", "new", "select"):
+    for k in ("ks", "ko", "new", "select", "negate", "with_index", "cpred", "rows"):
         if k in case:
             d[k] = case[k]
     if "columns" in case:
         d["columns"] = _aslist(case["columns"])
     if op == "sorted":
         d["reverse"] = _aslist(case["reverse"]) or []
+    if op == "getitem":
+        c = case["cols"]
+        d["cols"] = ["names", [c[1]]] if c[0] == "str" else c
     if "pred" in case:
         d["pred"] = pred_j(case["pred"])
     if "fn" in case:
@@ -964,8 +1545,10 @@ def modelable(case):
     tabs = [case["t"]] + ([case["u"]] if "u" in case else []) + case.get("others", [])
     if not all(ok_table(t) for t in tabs):
         return False
+    if case["op"] == "getitem" and case["rows"][0] == "label":
+        return False
     if case["op"] == "transposed":
-        t = case["t"]
+        t = norm(case["t"])
         si = t["header"].index(case["select"] or t["header"][0])
         return not any(isinstance(v, float) for v in t["cols"][si])
     return True
@@ -976,8 +1559,10 @@ def compare_model_real(case, rep, real):
     op = case["op"]
     if isinstance(rep, dict) and "error" in rep:
         return ("driver protocol error", rep, real)
-    if "err" in rep or "err" in real:
-        me, re_ = rep.get("err"), real.get("err")
+    if not isinstance(rep, dict):
+        rep = dict(value=rep) if "err" in real else rep
+    if (isinstance(rep, dict) and "err" in rep) or "err" in real:
+        me, re_ = (rep.get("err") if isinstance(rep, dict) else None), real.get("err")
         if me == re_:
             return None
         if op == "sorted" and me and re_:
@@ -988,6 +1573,13 @@ def compare_model_real(case, rep, real):
             if any(c in H and col_kind(case["t"]["cols"][H.index(c)]) == "obj" for c in cols):
                 return None
         return (f"{op}: model error {me} vs real {re_}", rep, real)
+    if op == "count":
+        return None if rep == real.get("count") else ("count differs", rep, real)
+    if op == "row_indices":
+        return None if rep == real.get("mask") else ("row mask differs", rep, real)
+    if "scalar" in real:
+        ok = rep.get("rows") is not None and len(rep["rows"]) == 1 and len(rep["rows"][0]) == 1 and uncell(rep["rows"][0][0]) == canon(real["scalar"])
+        return None if ok else ("getitem: single cell differs", rep, show(real))
     if op == "count_unique":
         m = Counter({tuple(uncell(x) for x in k): n for k, n in rep})
         return None if m == real["counts"] else (f"{op}: counts differ", show(sorted(m.items(), key=repr)), show(sorted(real["counts"].items(), key=repr)))
@@ -1000,7 +1592,7 @@ def compare_model_real(case, rep, real):
         return (f"{op}: header differs", rep["header"], real["header"])
     if op == "sorted":
         # numpy's argsort is not stable: compare the multiset of rows and the sequence of key tuples
-        H = case["t"]["header"]
+        H = norm(case["t"])["header"]
         cols, _ = sort_columns_spec(H, case["columns"], case["reverse"])
         idx = [H.index(c) for c in cols]
         if Counter(mrows) != Counter(rrows) or [tuple(r[i] for i in idx) for r in mrows] != [tuple(r[i] for i in idx) for r in rrows]:
@@ -1010,6 +1602,8 @@ def compare_model_real(case, rep, real):
         return None if not mrows and not rrows else (f"{op}: rows differ", show(mrows), show(rrows))
     if mrows != rrows:
         return (f"{op}: rows differ", show(mrows), show(rrows))
+    if rep.get("index") != real.get("index"):
+        return (f"{op}: index_name of the result differs", rep.get("index"), real.get("index"))
     return None
 
 
@@ -1020,11 +1614,18 @@ def model_as_real(case, rep):
 
     if isinstance(rep, dict) and "err" in rep:
         return dict(err=rep["err"], msg="(model)")
+    if case["op"] == "count":
+        return dict(count=rep)
+    if case["op"] == "row_indices":
+        return dict(mask=rep)
     if case["op"] == "count_unique":
         return dict(counts=Counter({tuple(canon(val(x)) for x in k): n for k, n in rep}))
     if case["op"] == "distinct_values":
         return dict(values={tuple(canon(val(x)) for x in k) for k in rep}, size=len(rep))
-    return dict(header=rep["header"], rows=[[val(x) for x in r] for r in rep["rows"]], shape=[len(rep["rows"]), rep.get("ncols", 0)])
+    rows = [[val(x) for x in r] for r in rep["rows"]]
+    if case["op"] == "getitem" and "scalar" in oracle(case) and len(rows) == 1 and len(rows[0]) == 1:
+        return dict(scalar=rows[0][0])
+    return dict(header=rep["header"], rows=rows, shape=[len(rows), rep.get("ncols", 0)])
 
 
 def malformed_case(rng):
@@ -1034,6 +1635,8 @@ def malformed_case(rng):
     if k == "badcol":
         c = gen_case(rng, rng.choice(["filtered", "get_columns", "count_unique", "distinct_values"]))
         c["columns"] = c["columns"][:-1] + ["nope"]
+        c["cols_form"] = "list"
+        c["cb"] = "callable"
         if c["op"] == "filtered":
             c["pred"] = ["true"]
         return c
@@ -1044,14 +1647,14 @@ def malformed_case(rng):
             if extra:
                 c["ks"] = c["ks"] + [extra[0]]
         return c
-    t = gen_table(rng, nrows=rng.choice([1, 2, 3, 5]), names=["i", "s", "b", "m"], kinds=["int", "str", "bool", "mixed"])
+    t = gen_table(rng, nrows=rng.choice([1, 2, 3, 5]), names=["i", "s", "b", "m"], kinds=["int", "str", "bool", "mixed"], index=False)
     if k == "partial":
         return dict(op="sorted", t=t, columns=["i", "s"], reverse=["s", "b"])
     if k == "revbool":
         return dict(op="sorted", t=t, columns=rng.choice([["b"], ["i", "b"], None]), reverse=["b"])
     if k == "revobj":
         return dict(op="sorted", t=t, columns=None, reverse=["m"])
-    t = gen_table(rng, nrows=rng.choice([2, 3, 5]), names=["i", "s", "b", "m"], kinds=["int", "str", "bool", "mixed"])
+    t = gen_table(rng, nrows=rng.choice([2, 3, 5]), names=["i", "s", "b", "m"], kinds=["int", "str", "bool", "mixed"], index=False)
     t["cols"][3][rng.randrange(len(t["cols"][3]))] = None  # a None among the first key column: every sort compares it
     return dict(op="sorted", t=t, columns=["m", "i"], reverse=None)
 
@@ -1070,6 +1673,7 @@ def correspondence(ctx):
     cases += [malformed_case(rng) for _ in range(ctx.budget(500, 6000))]
     cases = [c for c in cases if modelable(c)]
     reps = ctx.driver.batch([model_req(c) for c in cases])
+    corr_spec = Counter()
     for case, rep in zip(cases, reps):
         out["evaluations"] += 1
         real = run_real(case)
@@ -1084,11 +1688,19 @@ def correspondence(ctx):
             # not, the code has been repaired there and the (stale) model is the one that is wrong: not a mismatch
             # of interest.  Every other difference is reported.
             try:
-                conforms = check_op(case, real) is None and check_op(case, model_as_real(case, rep)) is not None
+                s_real, s_model = check_op(case, real), check_op(case, model_as_real(case, rep))
             except Exception:  # noqa: BLE001
-                conforms = False
-            if conforms:
+                s_real = s_model = ("?",)
+            if s_real is None and s_model is not None:
                 bump(out, "model_stale_where_code_conforms_to_spec", case["op"])
+                continue
+            if s_real is not None and s_model is None and len(s_real) == 4:
+                # the model does what the row oracle says and the implementation does not: that is a violation of
+                # the property by the real code (reported as such, with this input as replay), not a modelling gap
+                corr_spec[s_real[3]] += 1
+                bump(out, "corr_found_spec_failure", s_real[3])
+                if corr_spec[s_real[3]] <= 2:
+                    add_failure(out, "spec", s_real[0], dict(kind="op", case=case), s_real[1], s_real[2], confirmed=True, sig=s_real[3])
                 continue
             add_failure(out, "corr", d[0], case, d[1], d[2], confirmed=False)
             continue
@@ -1137,6 +1749,13 @@ def spec_check(ctx, budget):
         if per_sig[sig] <= 3:  # keep a few of each class so that one class cannot crowd out another
             add_failure(out, "spec", what, inp, exp, got, confirmed=True, sig=sig)
 
+    # regressions of repaired defects first (so that the witness itself becomes the replay)
+    for fid, w in fixed_witnesses():
+        out["evaluations"] += 1
+        f = _check_input(ctx, w)
+        bump(out, "fixed_witness_replayed", fid)
+        if f:
+            add_failure(out, "spec", f"regression of repaired defect {fid}: {f[0]}", w, f[1], f[2], confirmed=True, sig="regression:" + f[3])
     cases = exhaustive_sort_cases()
     cases += [gen_case(rng) for _ in range(3000 * budget)]
     for c in cases:
@@ -1154,6 +1773,17 @@ def spec_check(ctx, budget):
             out["nontrivial"].add((case["op"], repr(case)[:300]))
         if len(out["samples"]) < 6 and real.get("rows") and len(real["rows"]) > 2 and case["op"] not in ("sorted",):
             out["samples"].append(dict(case=show(case), result=show(real["rows"][:6])))
+    # ops outside the Lean model
+    xrng = ctx.subrng(f"extra{budget}")
+    for _ in range(400 * budget):
+        c = gen_extra(xrng)
+        out["evaluations"] += 1
+        bump(out, "extra_op", c["kind"])
+        f = check_extra(c)
+        if f:
+            fail(f[0], dict(kind="extra", case=c), f[1], f[2], f[3])
+        else:
+            out["nontrivial"].add(("extra", repr(c)[:300]))
     # file round trips
     frng = ctx.subrng(f"file{budget}")
     tables = [gen_file_table(frng) for _ in range(150 * budget)]
@@ -1163,17 +1793,38 @@ def spec_check(ctx, budget):
         dict(header=["a"], cols=[[""]], title="", legend=""),
         dict(header=["a", "b"], cols=[["\t", ","], ['"', '""']], title="", legend=""),
         dict(header=["a", "b"], cols=[["x", ""], [1.5, None]], title="ti", legend="le"),
+        dict(header=["a", "b"], cols=[["", "x", ""], ["", "y", ""]], title="", legend=""),  # rows of empty cells only
+        dict(header=["a", "b"], cols=[[None, None], [None, None]], title="", legend=""),
+        dict(header=["a,b", 'c"d', "e\tf"], cols=[[" lead", "trail "], ['"', "\t"], [",", '","']], title="", legend=""),
+        dict(header=["k", "v"], cols=[["r1", "r2"], [1, 2]], title="", legend="", index="k"),
     ]
-    for td in tables:
-        for fmt in FORMATS:
+    for ti, td in enumerate(tables):
+        if ti % 5 == 0 and td["header"] and "index" not in td and td["cols"]:  # typed formats keep index_name, delimited get it passed
+            n = len(td["cols"][0]) if td["cols"] else 0
+            td["cols"][0] = ["row %d" % i for i in range(n)]
+            td["index"] = td["header"][0]
+        runs = [(fmt, None) for fmt in FORMATS]
+        for _ in range(3):
+            v = gen_variant(frng, td)
+            runs.append((v.pop("fmt"), v or None))
+        for fmt, variant in runs:
             out["evaluations"] += 1
             bump(out, "file_format", fmt)
-            f = check_file(ctx, td, fmt)
+            if variant:
+                bump(out, "file_variant", "+".join(sorted(variant)))
+            f = check_file(ctx, td, fmt, variant)
             if f:
-                fail(f[0], dict(kind="file", table=td, format=fmt), f[1], f[2], f[3])
+                fail(f[0], dict(kind="file", table=td, format=fmt, variant=variant), f[1], f[2], f[3])
             elif td["cols"] and td["cols"][0]:
-                out["nontrivial"].add(("file", fmt, repr(td)[:300]))
+                out["nontrivial"].add(("file", fmt, repr(variant), repr(td)[:300]))
         bump(out, "file_rows", len(td["cols"][0]) if td["cols"] else 0)
+        # the formatting writers: to_csv / to_tsv / to_string(format=, sep=)
+        if all(col_kind(c) in ("str", "empty") for c in td["cols"]) or ti % 3 == 0:
+            for how in ("to_csv", "to_tsv", "to_string:csv", "to_string:tsv"):
+                out["evaluations"] += 1
+                f = check_format_text(ctx, td, how)
+                if f:
+                    fail(f[0], dict(kind="format", table=td, how=how), f[1], f[2], f[3])
     if tables and len(out["samples"]) < 8:
         out["samples"].append(dict(kind="file", table=show(tables[0]), formats=FORMATS))
     return out
@@ -1183,11 +1834,53 @@ def spec_check(ctx, budget):
 # findings
 # --------------------------------------------------------------------------
 def _check_input(ctx, inp):
-    if inp.get("kind") == "file":
-        f = check_file(ctx, inp["table"], inp["format"])
+    if inp.get("kind") == "extra":
+        f = check_extra(inp["case"])
+    elif inp.get("kind") == "format":
+        f = check_format_text(ctx, inp["table"], inp["how"])
+    elif inp.get("kind") == "file":
+        f = check_file(ctx, inp["table"], inp["format"], inp.get("variant"))
+    elif False:
+        f = check_format_text(ctx, inp["table"], inp["how"])
     else:
         f = check_op(inp["case"])
     return f
+
+
+def index_shifted(case):
+    """the index column is among the columns a method selects with `table[:, columns]`, but not as the first one
+    (so that moving it to the front changes the positions the caller relies on)"""
+    op = case.get("op")
+    t = case.get("t") or {}
+    k = t.get("index")
+
+    def shifted(idx, cols):
+        return idx is not None and idx in cols and cols[0] != idx
+
+    if op in ("filtered", "count", "row_indices", "with_new_column", "distinct_values"):
+        return shifted(k, case.get("columns") or [])
+    if op in ("inner_join", "natural_join"):
+        u = case.get("u") or {}
+        if op == "natural_join":
+            ks = ko = [c for c in norm(t)["header"] if c in u.get("header", [])]
+        else:
+            ks, ko = case.get("ks") or [], case.get("ko") or []
+        return shifted(k, ks) or shifted(u.get("index"), ko)
+    if op == "transposed":
+        return k is not None and case.get("select") not in (None, k)
+    return False
+
+
+def fixed_witnesses():
+    """witnesses of findings that have been repaired in /repo: replayed first, a regression is a violation"""
+    import json
+
+    from .common import VERIF
+
+    fp = VERIF / "known_findings.d" / "C20.json"
+    if not fp.exists():
+        return []
+    return [(k["id"], k["witness"]) for k in json.loads(fp.read_text()).get("findings", []) if k.get("status") == "fixed" and "witness" in k]
 
 
 def match_finding(f, k):
@@ -1198,6 +1891,14 @@ def match_finding(f, k):
     if r.get("kind") and inp.get("kind") != r["kind"]:
         return False
     if r.get("op") and (inp.get("case") or {}).get("op") != r["op"]:
+        return False
+    if r.get("ops") and (inp.get("case") or {}).get("op") not in r["ops"]:
+        return False
+    if r.get("self_indexed") and ((inp.get("case") or {}).get("t") or {}).get("index") is None:
+        return False
+    if r.get("index_shifted") and not index_shifted(inp.get("case") or {}):
+        return False
+    if r.get("variant_key") and r["variant_key"] not in (inp.get("variant") or {}):
         return False
     if r.get("zero_rows"):
         td = inp.get("table") or {}
